@@ -644,6 +644,24 @@ def run_c06(prop, tier):
                 runs[tid] = run
                 if any(a[0] in ("Flip", "Delete", "Swap", "Replay", "Inject", "Cut") for a in acts):
                     nontrivial.add((tuple(acts), direction, chunking))
+        # family: reads and consumers taking turns on one connection (an empty file's consumer expects no bytes while the next
+        # header is already waiting)
+        nmixed = 0
+        for program in mixed_programs(quick):
+            for arrival in ("all", "step", "ahead"):
+                for direction in ("s2r", "r2s"):
+                    tid += 1
+                    nmixed += 1
+                    try:
+                        run, rec = mixed_case(tid, program, arrival, direction)
+                    except Exception as e:
+                        cov["harness_errors"] = cov.get("harness_errors", 0) + 1
+                        if len(cov.setdefault("drift", [])) < 5:
+                            cov["drift"].append({"tid": tid, "error": repr(e)[:200], "mixed": program})
+                        continue
+                    records.append(rec)
+                    runs[tid] = run
+        cov["mixed_read_consume_cases"] = nmixed
         # code -> spec: seeded random walks over real connections, validated by TLC against TransitRecords.tla
         wrng = random.Random(seed * 7919 + 6)
         tv = {"walks": 0, "accepted": 0, "rejected": []}
@@ -713,6 +731,105 @@ def run_c06(prop, tier):
         "TLC bounds: <=4 records, <=2 adversary operations per direction"])
 
 
+class MixedRun:
+    """what a file transfer does with a connection: single records read (offer headers, acks) between stretches handed to a consumer
+    that expects a number of bytes - possibly none at all (an empty file) - while later records are already waiting"""
+    async_close = loop_reader = slow = pausing = False
+    sizes = []
+
+    def __init__(self, schedule):
+        self.schedule = schedule
+
+
+def mixed_case(tid, program, arrival, direction):
+    """program: ["read"] | ["consume", k] (the next k records' bytes; k may be 0); arrival: how many records are delivered before the
+    application's first call ("all"), just what each call needs after it was issued ("step"), or that and one record more ("ahead")"""
+    cs, cr, link = make_pair()
+    src, dst = (cs, cr) if direction == "s2r" else (cr, cs)
+    logged = Logged()
+    log.addObserver(logged)
+    nrec = sum(1 if op[0] == "read" else op[1] for op in program)
+    payloads = [b"rec-%d-" % (i + 1) + bytes([65 + i]) * (3 * i + 1) for i in range(nrec)]
+    got, internal = [], []
+    sent_n = [0]
+
+    def send(k):
+        for _ in range(k):
+            if sent_n[0] < nrec:
+                src.send_record(payloads[sent_n[0]])
+                sent_n[0] += 1
+        pump()
+
+    def ident(b):
+        return payloads.index(bytes(b)) + 1 if bytes(b) in payloads else "forged:%d" % len(b)
+    if arrival == "all":
+        send(nrec)
+    reads, consumers = [], []
+    try:
+        for opi, op in enumerate(program):
+            if op[0] == "read":
+                slot = {"r": None}
+                reads.append(slot)
+                d = dst.receive_record()
+                d.addCallbacks(lambda r, slot=slot: (slot.__setitem__("r", "ok"), got.append(ident(r))),
+                               lambda f, slot=slot: slot.__setitem__("r", "err"))
+            else:
+                k = op[1]
+                base = sum(1 if o[0] == "read" else o[1] for o in program[:opi])
+                expected = sum(len(p) for p in payloads[base:base + k])
+                c = {"done": "-", "n": 0, "expected": expected, "bytes": 0}
+                consumers.append(c)
+
+                class Sink:
+                    def write(self_, b, c=c):
+                        if len(b):
+                            c["bytes"] += len(b)
+                            got.append(ident(b))
+                d = dst.writeToFile(Sink(), expected)
+                d.addCallbacks(lambda n, c=c: (c.__setitem__("done", "ok"), c.__setitem__("n", n)),
+                               lambda f, c=c: c.__setitem__("done", "err"))
+            # the application is sequential: an operation has what it needs before the next is issued
+            need = sum(1 if o[0] == "read" else o[1] for o in program[:opi + 1])
+            send(max(0, need + (1 if arrival == "ahead" else 0) - sent_n[0]))
+            pump()
+        send(nrec)
+        pump()
+        for _ in range(len(dst._inbound_records)):          # whatever the program left unread is read now
+            d = dst.receive_record()
+            d.addCallbacks(lambda r: got.append(ident(r)), lambda f: None)
+        pump()
+    except Exception as e:
+        internal.append("%s: %s" % (type(e).__name__, str(e)[:100]))
+    for e in logged.items:
+        internal.append("%s: %s" % (type(e).__name__, str(e)[:80]))
+    log.removeObserver(logged)
+    t = dst.transport
+    state = "lost" if not t.connected else ("hung up" if t.disconnecting else dst.state)
+    alldone = all(c["done"] == "ok" for c in consumers)
+    rec = {"lateReadFailed": 0, "tid": tid, "sent": list(range(1, nrec + 1)), "got": got, "atTamper": -1, "desync": False,
+           "state": state if state in ("records", "hung up", "lost") else str(state),
+           "pendingReads": sum(1 for r in reads if r["r"] is None),
+           "consumerDone": "ok" if (consumers and alldone) else ("-" if not any(c["done"] == "err" for c in consumers) else "err"),
+           "consumerBytes": sum(c["n"] for c in consumers), "sentBytes": sum(len(p) for p in payloads),
+           "expectedBytes": sum(c["expected"] for c in consumers), "gotBytes": sum(c["bytes"] for c in consumers),
+           "clean": True, "inflight": nrec - len(got), "internal": internal, "direction": direction, "chunking": "whole",
+           "consumer": bool(consumers), "loopReader": False, "rearmed": 0, "slow": False, "envClosed": False, "pausingConsumer": False,
+           "origin": "mixed:" + arrival}
+    if consumers and not alldone and state == "records" and sent_n[0] == nrec:
+        # a consumer that was sent all its bytes over an untouched connection and is still waiting: reported as pending reads
+        rec["pendingReads"] += sum(1 for c in consumers if c["done"] == "-")
+        rec["state"] = "lost" if False else rec["state"]
+    return MixedRun([["mixed", program, arrival, direction]]), rec
+
+
+def mixed_programs(quick):
+    R = ["read"]
+    progs = [[R, ["consume", 0], R], [R, ["consume", 0], R, ["consume", 2], R], [["consume", 0], R, R], [R, ["consume", 1], R],
+             [R, ["consume", 2], R, ["consume", 0], ["consume", 0], R], [["consume", 3]], [R, R, ["consume", 0]],
+             [R, ["consume", 1], ["consume", 0], R, ["consume", 1]]]
+    return progs if not quick else progs[:6]
+
+
 def run(prop, tier):
     if prop == "C06":
         return run_c06(prop, tier)
@@ -725,6 +842,10 @@ def replay(prop, path):
     if prop != "C06":
         from . import transit_select
         return transit_select.replay(prop, path)
+    if d["schedule"] and d["schedule"][0][0] == "mixed":
+        _r, rec = mixed_case(1, d["schedule"][0][1], d["schedule"][0][2], d["schedule"][0][3])
+        print(json.dumps(rec, indent=1))
+        return 0
     run_ = RecordRun(1, d["direction"], d["chunking"], d["consumer"], random.Random(1), d["sizes"], slow=bool(d.get("slow")))
     run_.async_close = bool(d.get("async_close"))
     run_.loop_reader = bool(d.get("loop_reader"))
